@@ -236,7 +236,7 @@ func flipBit(r *rand.Rand, b []byte) {
 }
 
 // perturbations enumerates one perturbation of each kind for each field of d.
-func perturbations(r *rand.Rand, d *payDesc, emit func(p pert)) {
+func perturbations(r *rand.Rand, d *payDesc, tipsetSel func(i int) bool, emit func(p pert)) {
 	mk := func(field, kind string, idx int, f func(c *payDesc) bool) {
 		c := d.clone()
 		if f(c) {
@@ -307,6 +307,9 @@ func perturbations(r *rand.Rand, d *payDesc, emit func(p pert)) {
 	// every tipset
 	for i := 0; i < L; i++ {
 		i := i
+		if tipsetSel != nil && !tipsetSel(i) {
+			continue
+		}
 		mk("tipset.epoch", "+1", i, func(c *payDesc) bool { c.Chain[i].Epoch++; return true })
 		mk("tipset.epoch", "-1", i, func(c *payDesc) bool { c.Chain[i].Epoch--; return true })
 		mk("tipset.epoch", "bitflip", i, func(c *payDesc) bool { c.Chain[i].Epoch ^= 1 << uint(r.Intn(64)); return true })
@@ -600,7 +603,7 @@ func runSign(run *vkit.Run) {
 	if sepOK {
 		run.Count("sign.separator_allowed_in_network_name_by_manifest", 1)
 	}
-	perLen := run.N(2, 60)
+	perLen := run.N(2, 40)
 	type job struct{ L, k int }
 	var jobs []job
 	for k := 0; k < perLen; k++ {
@@ -624,23 +627,33 @@ func runSign(run *vkit.Run) {
 		cm.add(bb, bc, "base", base.short)
 		gmu.Lock()
 		if e, _ := global.add(bb, bc, fmt.Sprintf("base L=%d", j.L), base.short); e != nil {
-			run.Violation(fmt.Sprintf("C14 sign: signing-bytes collision between two unrelated base payloads (L=%d vs %s)", j.L, e.label),
-				map[string]any{"case": caseID, "a": base.short(), "b": e.short, "bytes": hex.EncodeToString(bb)})
+			run.Violation("C14 sign: signing-bytes collision between two unrelated base payloads",
+				map[string]any{"case": caseID, "chain_len": j.L, "other": e.label, "a": base.short(), "b": e.short, "bytes": hex.EncodeToString(bb)})
 		}
 		gmu.Unlock()
 		// determinism: two independently built payload objects, and the same object twice
 		p, nn := base.build()
 		if b1, b2 := p.MarshalForSigning(nn), p.MarshalForSigning(nn); !bytes.Equal(b1, b2) || !bytes.Equal(b1, bb) {
-			run.Violation(fmt.Sprintf("C14 sign: MarshalForSigning not deterministic for an unchanged payload (L=%d)", j.L),
-				map[string]any{"case": caseID, "payload": base.short()})
+			run.Violation("C14 sign: MarshalForSigning not deterministic for an unchanged payload",
+				map[string]any{"case": caseID, "chain_len": j.L, "payload": base.short()})
 		}
 		if b3 := p.MarshalForSigningWithValueKey(nn, p.Value.Key()); !bytes.Equal(b3, bb) {
-			run.Violation(fmt.Sprintf("C14 sign: MarshalForSigningWithValueKey(Value.Key()) differs from MarshalForSigning (L=%d)", j.L),
-				map[string]any{"case": caseID, "payload": base.short()})
+			run.Violation("C14 sign: MarshalForSigningWithValueKey(Value.Key()) differs from MarshalForSigning",
+				map[string]any{"case": caseID, "chain_len": j.L, "payload": base.short()})
 		}
 		run.Count("sign.determinism_checks", 2)
 		var n, ntriv int64
-		perturbations(r, base, func(pt pert) {
+		// every tipset of the chain is perturbed for the first base payload of each length (and every
+		// 8th one in thorough); the other bases perturb first, last and 24 random tipsets.
+		var sel func(i int) bool
+		if j.k%8 != 0 && j.L > 26 {
+			pick := map[int]bool{0: true, j.L - 1: true}
+			for len(pick) < 26 {
+				pick[r.Intn(j.L)] = true
+			}
+			sel = func(i int) bool { return pick[i] }
+		}
+		perturbations(r, base, sel, func(pt pert) {
 			if !sepOK && strings.Contains(pt.d.NN, ":") {
 				run.Count("sign.perturbations_excluded_inadmissible_network_name", 1)
 				return
@@ -656,18 +669,18 @@ func runSign(run *vkit.Run) {
 			run.Distinct(fmt.Sprintf("sign|%s|%s|L=%d|i=%d", pt.field, pt.kind, j.L, pt.idx))
 			e, nondet := cm.add(b, c, label, pt.d.short)
 			if nondet {
-				run.Violation(fmt.Sprintf("C14 sign: same payload description gave different signing bytes (field=%s kind=%s L=%d)", pt.field, pt.kind, j.L),
-					map[string]any{"case": caseID, "payload": pt.d.short()})
+				run.Violation(fmt.Sprintf("C14 sign: same payload description gave different signing bytes (field=%s kind=%s)", pt.field, pt.kind),
+					map[string]any{"case": caseID, "chain_len": j.L, "payload": pt.d.short()})
 			}
 			if e != nil {
-				run.Violation(fmt.Sprintf("C14 sign: payload signing-bytes collision field=%s kind=%s (chain length %d, tipset %d): %q and %q differ but MarshalForSigning is equal",
-					pt.field, pt.kind, j.L, pt.idx, label, e.label),
-					map[string]any{"case": caseID, "a": pt.d.short(), "a_label": label, "b": e.short, "b_label": e.label, "bytes": hex.EncodeToString(b)})
+				run.Violation(fmt.Sprintf("C14 sign: payload signing-bytes collision field=%s kind=%s: two payload descriptions that differ (this perturbation vs %s) have equal MarshalForSigning bytes",
+					pt.field, pt.kind, strings.SplitN(e.label, "@", 2)[0]),
+					map[string]any{"case": caseID, "chain_len": j.L, "tipset": pt.idx, "a": pt.d.short(), "a_label": label, "b": e.short, "b_label": e.label, "bytes": hex.EncodeToString(b)})
 			}
 			if n%16 == 0 { // determinism on perturbed payloads too
 				if b2 := pt.d.signingBytes(); !bytes.Equal(b, b2) {
-					run.Violation(fmt.Sprintf("C14 sign: MarshalForSigning not deterministic (field=%s kind=%s L=%d)", pt.field, pt.kind, j.L),
-						map[string]any{"case": caseID, "payload": pt.d.short()})
+					run.Violation(fmt.Sprintf("C14 sign: MarshalForSigning not deterministic (field=%s kind=%s)", pt.field, pt.kind),
+						map[string]any{"case": caseID, "chain_len": j.L, "payload": pt.d.short()})
 				}
 				run.Count("sign.determinism_checks", 1)
 			}
@@ -676,7 +689,7 @@ func runSign(run *vkit.Run) {
 		run.Count("sign.payload_perturbations", ntriv)
 		run.Count("sign.payload_perturbations_trivial_skipped", n-ntriv)
 		run.Count("sign.base_payloads", 1)
-		if j.k == 0 && j.L%32 == 0 {
+		if j.k == 0 && j.L == 128 {
 			run.Sample(map[string]any{"sub": "sign", "chain_len": j.L, "perturbations": ntriv, "base": base.short()})
 		}
 	}
@@ -701,8 +714,7 @@ func runSign(run *vkit.Run) {
 			run.Distinct(fmt.Sprintf("sign|network|following|sepshift|cidlen=%d", a.PT.ByteLen()))
 			ba, bb := a.signingBytes(), b.signingBytes()
 			if a.canon() != b.canon() && bytes.Equal(ba, bb) {
-				run.Violation(fmt.Sprintf("C14 sign: payload signing-bytes collision field=network|following kind=boundary-move-across-separator: network %q phase %d and network %q phase %d (all later fields shifted by one byte) give equal bytes",
-					a.NN, a.Phase, b.NN, b.Phase),
+				run.Violation("C14 sign: payload signing-bytes collision field=network|following kind=boundary-move-across-separator: network N+\":\" with phase p and network N with phase 0x3a (all later fields shifted by one byte into the variable-length CID) give equal bytes",
 					map[string]any{"case": caseID, "a": a.short(), "b": b.short(), "bytes": hex.EncodeToString(ba)})
 			}
 		}
@@ -773,8 +785,7 @@ func runSign(run *vkit.Run) {
 				if pd.NN != o.NN && pd.Instance == o.Instance && pd.Round == o.Round && pd.NN+":"+string(pd.Beacon) == o.NN+":"+string(o.Beacon) {
 					field, kind = "network|beacon", "boundary-move-across-separator"
 				}
-				run.Violation(fmt.Sprintf("C14 sign: VRF input collision field=%s kind=%s: (network %q, beacon %x, instance %d, round %d) and (network %q, beacon %x, instance %d, round %d) give equal VRF input",
-					field, kind, pd.NN, pd.Beacon, pd.Instance, pd.Round, o.NN, o.Beacon, o.Instance, o.Round),
+				run.Violation(fmt.Sprintf("C14 sign: VRF input collision field=%s kind=%s: two (network, beacon, instance, round) descriptions that differ give equal VRF input", field, kind),
 					map[string]any{"case": caseID, "a": pd.short(), "a_label": label, "b": o.short(), "b_label": e.label, "bytes": hex.EncodeToString(b)})
 			}
 		})
@@ -785,7 +796,7 @@ func runSign(run *vkit.Run) {
 	vkit.Parallel(nv, runtime.GOMAXPROCS(0), vbody)
 
 	if run.Case < 0 {
-		if run.Counter("sign.payload_perturbations") < int64(perLen)*80000 || run.Counter("sign.vrf_perturbations") < int64(nv)*10 {
+		if run.Counter("sign.payload_perturbations") < 100000+int64(perLen)*20000 || run.Counter("sign.vrf_perturbations") < int64(nv)*10 {
 			run.Inconclusive("too-few-events")
 		}
 	}
